@@ -35,7 +35,8 @@ func runC12(e *Env) error {
 		for i := 0; i < arity; i++ {
 			body.WriteString("[{{ " + params[i] + " }}]")
 		}
-		body.WriteString("g={{ g }};{{ sib('z') }}{% set leak = 'LEAK' %}{% set g = 'changed' %})")
+		// an escaped delimiter in the body is literal text there as anywhere else: the argument is not substituted into it
+		body.WriteString("g={{ g }};L\\{{ g }}\\{{ p }};{{ sib('z') }}{% set leak = 'LEAK' %}{% set g = 'changed' %})")
 		lib := "{% macro " + mn + "(" + strings.Join(sig, ", ") + ") %}" + body.String() + "{% endmacro %}{% macro sib(x) %}S{{ x }}{% endmacro %}"
 		args := make([]string, argc)
 		argOut := make([]string, argc)
@@ -64,7 +65,7 @@ func runC12(e *Env) error {
 				want.WriteString("[]")
 			}
 		}
-		want.WriteString("g=G;Sz)")
+		want.WriteString("g=G;L{{ g }}{{ p }};Sz)")
 		call := func(prefix string) string { return "{{ " + prefix + "(" + strings.Join(args, ", ") + ") }}" }
 		after := "|{{ leak is defined ? 'LEAKED' : 'clean' }}|{{ g }}"
 		wrap := func(inner string) string {
